@@ -404,3 +404,29 @@ def composites_schema():
     m.groups.append(g)
     s.messages.append(m)
     return s
+
+
+def plant_specials(rng, s, lv, lay, v):
+    """overwrite scalar fields of a reference-encoder value tree with boundary patterns (NaN payloads,
+    infinities, -0, min/max/null-like values): random block bytes almost never contain them"""
+    for k, f in enumerate(msgdrv.nonconst_fields(s, lv)):
+        r = s.resolve(f.type_name)
+        if r[0] != "S" or not rng.chance(1, 2):
+            continue
+        off, size = lay["fields"][k]
+        if off + size > len(v["block"]):
+            continue
+        val = rand_scalar(rng, r[1])
+        if r[1] in ("float", "double") and rng.chance(2, 3):
+            w = 32 if r[1] == "float" else 64
+            val = rng.choice([(0xFF << 23) | 0x12345 if w == 32 else (0x7FF << 52) | 0x123456789,      # signalling NaN
+                              (0x1FF << 22) | 1 if w == 32 else (0xFFF << 51) | 1,                        # quiet NaN, payload 1
+                              (1 << (w - 1)) | ((0x1FF << 22) | 0x55 if w == 32 else (0xFFF << 51) | 0x55),  # negative NaN
+                              (0x1FF << 22) if w == 32 else (0xFFF << 51),                                # canonical quiet NaN
+                              1 << (w - 1), (0xFF << 23) if w == 32 else (0x7FF << 52)])
+        b = bytearray(v["block"])
+        b[off:off + size] = to_wire(r[1], val, s.big_endian)
+        v["block"] = bytes(b)
+    for gi, g in enumerate(lv.groups):
+        for e in v["groups"][gi]["entries"]:
+            plant_specials(rng, s, g, lay["groups"][gi]["level"], e)
